@@ -131,9 +131,23 @@ def confirm_stuck_at_k1(candidates, cap_s=200.0, plain_attempts=1, ty_attempts=8
         ty = cand.get("ty")
         if ty and ty.get("which"):
             envs += [{"VERIF_TY": "%s:%d" % (ty["which"], int(ty.get("seed", 0)) * 100 + i)} for i in range(ty_attempts)]
+        else:
+            envs += [None] * 7        # no injection in the stuck run: several re-runs, every second one with jitter
+        # the stuck run had scheduling noise of a few real milliseconds, i.e. tenths of a virtual second at K=20; with
+        # unmodified timers the same relative noise is hook-point jitter of the same VIRTUAL size (<= 1 s, what a loaded
+        # node does to a thread): every second re-run gets it, with its own perturbation seed
+        pj = os.path.join(d, "sc%d-jitter.json" % ci)
+        scj = dict(sc)
+        scj.update({"jitter_p": max(0.3, float(cand["scenario"].get("jitter_p", 0.3))),
+                    "jitter_max": 0.6})
         for i, extra in enumerate(envs):
             out_p = os.path.join(d, "out%d-%d.txt" % (ci, i))
-            pr = subprocess.Popen([vlib.PYTHON, "-m", "rt.debug", p, "1"], cwd=vlib.VERIF_ROOT,
+            use = p
+            if i % 2 == 1:
+                with open(pj + str(i), "w") as f:
+                    json.dump(dict(scj, pseed=int(sc.get("pseed", 0)) + i), f)
+                use = pj + str(i)
+            pr = subprocess.Popen([vlib.PYTHON, "-m", "rt.debug", use, "1"], cwd=vlib.VERIF_ROOT,
                                   env=vlib.child_env(extra), stdout=open(out_p, "w"), stderr=subprocess.DEVNULL)
             runs.append((ci, pr, out_p))
     t_end = time.time() + cap_s + 240
@@ -190,9 +204,14 @@ def multi_failure(rng, pair):
             continue
         kind = rng.choice(["fail", "fail", "fail", "re", "re4", "sf6"])
         if kind == "fail":
-            comps[ref] = [{"reason": rng.choice(["KnownIssue", "SystemIssue", "UnknownIssue"]), "duration": dur()}]
+            # "Killed" (the task was killed from outside the runtime, e.g. by the scheduler): unrecoverable like the
+            # others, but handled at once - no 25 s stability wait - so the stop of the neighbours lands right after
+            # whatever they were doing at that moment (e.g. a restart that has just been initiated)
+            comps[ref] = [{"reason": rng.choice(["KnownIssue", "SystemIssue", "UnknownIssue", "Killed", "Killed"]),
+                           "duration": rng.choice([0.5, 1.0, 1.5, 2.0, 3.0, 5.0, 8.0])}]
         elif kind == "re":
-            comps[ref] = [{"reason": "ResourceExhausted", "duration": dur()}, {"reason": "Success", "duration": dur()}]
+            comps[ref] = [{"reason": "ResourceExhausted", "duration": rng.choice([0.0, 0.2, 0.5, 1.0, 2.0])},
+                          {"reason": "Success", "duration": rng.choice([5.0, 20.0, 60.0])}]
         elif kind == "re4":
             comps[ref] = [{"reason": "ResourceExhausted", "duration": rng.choice([0.5, 1.0])} for _ in range(4)]
         else:
